@@ -243,31 +243,42 @@ def rwOf (ts : List Term) : List Nat := (ts.filter (·.rw)).map (·.pos)
 /-- one cycle: `data = await wait_for(future, …); update_devices; await sleep(…); future = roundtrip_packet(…)` -/
 def cycle : Coro Act := .seq (.await .recv) (.seq (.await .sleep) (.act .send))
 
+/-- `try:` part of `SyncGroupBase.run`: request OPERATIONAL for the read-write terminals, then cycle -/
+def opBody (ts : List Term) (n : Nat) : Coro Act :=
+  .seq (.gather ((rwOf ts).map fun p => [.setState p ms_OPERATIONAL])) (.loop n cycle)
+
+/-- `finally:` part of `SyncGroupBase.run`: request SAFE-OPERATIONAL for the read-write terminals -/
+def safeFin (ts : List Term) : Coro Act :=
+  .gather ((rwOf ts).map fun p => [.setState p ms_SAFE_OPERATIONAL])
+
 /-- the body of `SyncGroupBase.run` inside `async with self.map_fmmu()` -/
 def slowCore (ts : List Term) (n : Nat) : Coro Act :=
   .seq (.gather (ts.map toOp))
-    (.seq (.act .send)
-      (.tryFinally
-        (.seq (.gather ((rwOf ts).map fun p => [.setState p ms_OPERATIONAL]))
-          (.loop n cycle))
-        (.gather ((rwOf ts).map fun p => [.setState p ms_SAFE_OPERATIONAL]))))
+    (.seq (.act .send) (.tryFinally (opBody ts n) (safeFin ts)))
 
 /-- `SyncGroupBase.run` (`self.running` stays true: `while True` with fuel n) -/
 def slowRun (ts : List Term) (n : Nat) : Coro Act := mapFmmu (mappings ts) (slowCore ts n)
 
-/-- `FastSyncGroup.run` inside `with self.ec.register_sync_group(self)`; `busy` are the
-indices `randrange` proposes that are already taken, `index` the free one -/
+/-- `while True: index = randrange(MAX_PROGS); try: lookup_elem(…) except OSError (ENOENT): break`;
+`busy` are the proposed indices that are already taken, `index` the free one -/
+def lookups (busy : List Nat) (index : Nat) : Coro Act :=
+  busy.foldr (fun i c => .seq (.act (.lookup i)) c) (.act (.lookup index))
+
+/-- body of `with self.ec.register_sync_group(self)` in `FastSyncGroup.run`: prime the pump, then the
+slow group's `run` -/
+def fastBody (ts : List Term) (n : Nat) : Coro Act :=
+  .seq (.act .send) (.seq (.await .sleep) (.seq (.act .send) (.seq (.await .sleep) (slowRun ts n))))
+
+/-- `FastSyncGroup.run` with `register_sync_group` as the context manager
+`load; lookups; update_elem; close; sync_groups[index] = sg; try: yield finally: delete_elem; del sync_groups[index]` -/
 def fastRun (busy : List Nat) (index : Nat) (ts : List Term) (n : Nat) : Coro Act :=
   .seq (.act .load)
-    (.seq (busy.foldr (fun i c => .seq (.act (.lookup i)) c) (.act (.lookup index)))
+    (.seq (lookups busy index)
       (.seq (.act (.progSet index))
         (.seq (.act .closeFd)
           (.seq (.act (.groupSet index))
             (.withCtx .skip .skip (.seq (.act (.progDel index)) (.act (.groupDel index)))
-              (.seq (.act .send)
-                (.seq (.await .sleep)
-                  (.seq (.act .send)
-                    (.seq (.await .sleep) (slowRun ts n))))))))))
+              (fastBody ts n))))))
 
 def isCancelled : Exc → Bool
   | .cancelled => true
